@@ -101,6 +101,7 @@ def r2_positional_binding(ctx: Ctx) -> None:
     loops = [s for s in fn.node.body if isinstance(s, ast.For)]
     ctx.count("binding_loops", len(loops))
     idx_vars = []
+    zip_vars: list[tuple[ast.For, str]] = []
     for lp in loops:
         it = unparse(lp.iter)
         if it == "enumerate(macro_args)" and isinstance(lp.target, ast.Tuple) and len(lp.target.elts) == 2:
@@ -111,8 +112,25 @@ def r2_positional_binding(ctx: Ctx) -> None:
             ctx.ok(f"generate_macro_application:loop `{it}`", "iterates the positions of the macro's parameter list")
         elif isinstance(lp.iter, ast.Call) and call_name(lp.iter) == "zip" and "macro_args" in [unparse(a) for a in lp.iter.args]:
             strict = any(k.arg == "strict" and getattr(k.value, "value", False) is True for k in lp.iter.keywords)
-            ctx.check(strict, f"generate_macro_application:loop `{it}`", "zip() stops at the shorter list: with too few arguments the remaining parameters are silently left unbound "
-                      "instead of failing (only zip(..., strict=True) raises)")
+            # without strict=True zip() stops at the shortest operand.  That is harmless only when an earlier positional loop over the
+            # parameter list already read every other operand at each position (a plain subscript: too few arguments raised there) or
+            # built it with one entry per parameter (the aligned-list obligation below).
+            ops = [unparse(a) for a in lp.iter.args]
+            others = [o for o in ops if o != "macro_args"]
+            covered = set()
+            for lp0, iv0, _pv0 in idx_vars:
+                for n in walk_no_nested(lp0):
+                    if isinstance(n, ast.Subscript) and unparse(n.slice) == iv0 and isinstance(n.ctx, ast.Load):
+                        covered.add(unparse(n.value))
+                for c in calls_in(lp0):
+                    if (call_name(c) or "").endswith(".append") and isinstance(c.func, ast.Attribute):
+                        covered.add(unparse(c.func.value))
+            safe = strict or (bool(others) and all(o in covered for o in others))
+            ctx.check(safe, f"generate_macro_application:loop `{it}`", "zip() stops at the shorter list: with too few arguments the remaining parameters are silently left unbound "
+                      "instead of failing (only zip(..., strict=True) raises, or an earlier positional read of every zipped list)")
+            if safe and isinstance(lp.target, ast.Tuple) and len(lp.target.elts) == len(ops):
+                ctx.count("positional_reads", len(others))
+                zip_vars.append((lp, unparse(lp.target.elts[ops.index("macro_args")])))
         else:
             raise AnalysisError(f"generate_macro_application: loop over `{it}` is not a recognised walk of the parameter list")
     for lp, iv, pv in idx_vars:
@@ -123,6 +141,13 @@ def r2_positional_binding(ctx: Ctx) -> None:
         for c in calls_in(lp):
             if (call_name(c) or "").endswith("add_symbol") or call_name(c) == "SymbolNode":
                 ctx.check(unparse(c.args[0]) == pv, f"generate_macro_application:{unparse(c)[:40]}", "binds the loop's own parameter name")
+    for lp, pv in zip_vars:
+        bound = dict(zip([unparse(a) for a in lp.iter.args], [unparse(e) for e in lp.target.elts]))  # type: ignore[attr-defined]
+        for c in calls_in(lp):
+            if (call_name(c) or "").endswith("add_symbol") or call_name(c) == "SymbolNode":
+                src = "evaluated_args" if (call_name(c) or "").endswith("add_symbol") else ("macro_args_values" if "macro_args_values" in bound else "node.args")
+                ctx.check(unparse(c.args[0]) == pv and len(c.args) > 1 and unparse(c.args[1]) == bound.get(src), f"generate_macro_application:{unparse(c)[:40]}",
+                          f"binds the loop's own parameter name to the entry of {src} at the same position")
     ctx.floor("positional_reads", 2)
     # the evaluated list stays aligned: every trip round the evaluation loop appends exactly one entry (value, or the deferral marker)
     for lp, iv, pv in idx_vars:
